@@ -14,10 +14,16 @@ func rel(lines ...string) func(string) string {
 	return func(string) string { return strings.Join(lines, "\n") }
 }
 
+// spaceAt replaces the k-th character of an indentation by a space
+func spaceAt(ind string, k int) string { return ind[:k] + " " + ind[k+1:] }
+
 // Faults: one operator per rule of property C10.
 func Faults() []Fault {
 	return []Fault{
 		{Name: "indent-spaces", Abs: true, Lines: func(t string) string { return t + "%p\n" + strings.Repeat(" ", len(t)+1) + "%b deeper with spaces" }},
+		{Name: "indent-space-first-deeper", Abs: true, Lines: func(t string) string { return t + "%p\n" + spaceAt(t+"\t", 0) + "%b deeper, first tab is a space" }},
+		{Name: "indent-space-middle-deeper", Abs: true, Lines: func(t string) string { return t + "%p\n" + spaceAt(t+"\t", len(t)/2) + "%b deeper, a middle tab is a space" }},
+		{Name: "indent-space-last-deeper", Abs: true, Lines: func(t string) string { return t + "%p\n" + spaceAt(t+"\t", len(t)) + "%b deeper, last tab is a space" }},
 		{Name: "indent-two-levels", Lines: rel("%p", "\t\t%b two levels deeper")},
 		{Name: "inline-and-nested", Lines: rel("%p inline", "\t%b nested too")},
 		{Name: "inline-script-and-nested", Lines: rel("%p= s0", "\t%b nested too")},
